@@ -1,6 +1,7 @@
 package main
 
 import (
+	"go/constant"
 	"go/token"
 	"go/types"
 	"strings"
@@ -154,6 +155,7 @@ func ruleValidateDP(c *Ctx, r *Rep) {
 		}
 	}
 	r.Check(okSeed, "seed|"+fk, c.FnPos(fn), "fits[len(profile)][len(subject)] = true (both exhausted)", sprintf("%v", okSeed))
+	validateSpaceAndExits(c, r, fn, d)
 	// the recurrence: union of the path conditions of all in-loop true-stores, from the inner loop body's entry
 	inner := d.n.(*ssa.Phi).Block() // inner loop header
 	var body *ssa.BasicBlock
@@ -462,4 +464,361 @@ func rootPhi(v ssa.Value) ssa.Value {
 		}
 	}
 	return v
+}
+
+// lenPlus reads v as len(x)+k.
+func lenPlus(v ssa.Value) (ssa.Value, int64, bool) {
+	if x, ok := lenOperand(v); ok {
+		return x, 0, true
+	}
+	if b, ok := v.(*ssa.BinOp); ok && (b.Op == token.ADD || b.Op == token.SUB) {
+		if x, ok := lenOperand(b.X); ok {
+			if k, ok := b.Y.(*ssa.Const); ok && k.Value != nil {
+				if b.Op == token.SUB {
+					return x, -k.Int64(), true
+				}
+				return x, k.Int64(), true
+			}
+		}
+		if x, ok := lenOperand(b.Y); ok && b.Op == token.ADD {
+			if k, ok := b.X.(*ssa.Const); ok && k.Value != nil {
+				return x, k.Int64(), true
+			}
+		}
+	}
+	return nil, 0, false
+}
+
+// countedRange describes `for v := first; v <cmp> bound; v += step` as the closed range of values v takes,
+// each end being a constant or len(x)+k.
+type rangeEnd struct {
+	of ssa.Value // nil: a constant
+	k  int64
+}
+
+func (e rangeEnd) String() string {
+	if e.of == nil {
+		return sprintf("%d", e.k)
+	}
+	if e.k == 0 {
+		return "len(" + e.of.Name() + ")"
+	}
+	return sprintf("len(%s)%+d", e.of.Name(), e.k)
+}
+
+func endOf(v ssa.Value) (rangeEnd, bool) {
+	if k, ok := v.(*ssa.Const); ok && k.Value != nil && k.Value.Kind() == constant.Int {
+		return rangeEnd{nil, k.Int64()}, true
+	}
+	if x, k, ok := lenPlus(v); ok {
+		return rangeEnd{x, k}, true
+	}
+	return rangeEnd{}, false
+}
+
+// countedRange: lo, hi (inclusive) and direction of a loop variable.
+func countedRange(phi *ssa.Phi) (lo, hi rangeEnd, down bool, why string) {
+	body := naturalLoops(phi.Parent())[phi.Block()]
+	if body == nil {
+		return lo, hi, false, "not at a loop head"
+	}
+	init, next, ok := carriedRound(phi, body)
+	if !ok {
+		return lo, hi, false, "more than one way into or round the loop"
+	}
+	step := int64(0)
+	if b, ok := next.(*ssa.BinOp); ok && b.X == ssa.Value(phi) {
+		if k, ok := b.Y.(*ssa.Const); ok && k.Value != nil {
+			switch b.Op {
+			case token.ADD:
+				step = k.Int64()
+			case token.SUB:
+				step = -k.Int64()
+			}
+		}
+	}
+	if step != 1 && step != -1 {
+		return lo, hi, false, "the step is not one up or one down"
+	}
+	first, ok := endOf(init)
+	if !ok {
+		return lo, hi, false, "the first value is neither a constant nor a length"
+	}
+	iff, _ := lastInstr(phi.Block()).(*ssa.If)
+	if iff == nil {
+		return lo, hi, false, "no test at the loop head"
+	}
+	cond, stays := iff.Cond, body[phi.Block().Succs[0]]
+	if u, ok := cond.(*ssa.UnOp); ok && u.Op == token.NOT {
+		cond, stays = u.X, !stays
+	}
+	bin, ok := cond.(*ssa.BinOp)
+	if !ok {
+		return lo, hi, false, "the test at the loop head is not a comparison"
+	}
+	op, other := bin.Op, bin.Y
+	if bin.Y == ssa.Value(phi) {
+		other = bin.X
+		op = map[token.Token]token.Token{token.LSS: token.GTR, token.GTR: token.LSS, token.LEQ: token.GEQ, token.GEQ: token.LEQ, token.EQL: token.EQL, token.NEQ: token.NEQ}[op]
+	} else if bin.X != ssa.Value(phi) {
+		return lo, hi, false, "the test at the loop head does not compare the loop variable"
+	}
+	if !stays {
+		op = map[token.Token]token.Token{token.LSS: token.GEQ, token.GEQ: token.LSS, token.GTR: token.LEQ, token.LEQ: token.GTR, token.EQL: token.NEQ, token.NEQ: token.EQL}[op]
+	}
+	bound, ok := endOf(other)
+	if !ok {
+		return lo, hi, false, "the bound is neither a constant nor a length"
+	}
+	// the loop runs while  phi op bound
+	if step == -1 {
+		switch op {
+		case token.GEQ:
+		case token.GTR:
+			bound.k++
+		default:
+			return lo, hi, false, "a loop counting down that does not go on while the variable is above a bound"
+		}
+		return bound, first, true, ""
+	}
+	switch op {
+	case token.LEQ:
+	case token.LSS:
+		bound.k--
+	default:
+		return lo, hi, false, "a loop counting up that does not go on while the variable is below a bound"
+	}
+	return first, bound, false, ""
+}
+
+// exitAfter follows unconditional jumps from b to the return they end in.
+func exitAfter(b *ssa.BasicBlock) *ssa.Return {
+	for i := 0; i < 8 && b != nil; i++ {
+		switch x := lastInstr(b).(type) {
+		case *ssa.Return:
+			return x
+		case *ssa.Jump:
+			b = b.Succs[0]
+		default:
+			return nil
+		}
+	}
+	return nil
+}
+
+func constBoolResult(ret *ssa.Return) (val, ok bool) {
+	res := retResults(ret)
+	if len(res) != 1 {
+		return false, false
+	}
+	k, isK := res[0].(*ssa.Const)
+	if !isK || k.Value == nil || k.Value.Kind() != constant.Bool {
+		return false, false
+	}
+	return constant.BoolVal(k.Value), true
+}
+
+func validateSpaceAndExits(c *Ctx, r *Rep, fn *ssa.Function, d *dpRenderer) {
+	fk := c.FuncKey(fn)
+	// --- the table's dimensions: make([][]bool, len(W)+1), rows make([]bool, len(H)+1)
+	var W, H ssa.Value
+	if mk, ok := d.table.(*ssa.MakeSlice); ok {
+		if x, k, ok := lenPlus(mk.Len); ok && k == 1 {
+			W = x
+		}
+	}
+	for _, b := range fn.Blocks {
+		for _, ins := range b.Instrs {
+			st, ok := ins.(*ssa.Store)
+			if !ok {
+				continue
+			}
+			ia, ok := st.Addr.(*ssa.IndexAddr)
+			if !ok || ia.X != d.table {
+				continue
+			}
+			if mk, ok := st.Val.(*ssa.MakeSlice); ok {
+				if x, k, ok := lenPlus(mk.Len); ok && k == 1 {
+					H = x
+				}
+			}
+		}
+	}
+	if W == nil || H == nil {
+		r.Undecided("shape:table-size|"+fk, c.FnPos(fn), "the table is not made with len(profile attributes)+1 rows of len(subject)+1 cells")
+	} else {
+		// --- the cells computed: every row 0..len(W)-1 from the last to the first, every column 0..len(H)
+		if op, ok := d.o.(*ssa.Phi); ok {
+			lo, hi, down, why := countedRange(op)
+			if why != "" {
+				r.Undecided("shape:rows|"+fk, c.Pos(op.Pos()), why)
+			} else {
+				good := down && lo.of == nil && lo.k == 0 && hi.of == W && hi.k == -1
+				r.Check(good, "rows|"+fk, c.Pos(op.Pos()), "rows len(profile)-1 down to 0 (each row is computed from the one below)", sprintf("%s .. %s, counting down: %v", lo, hi, down))
+			}
+		}
+		if np, ok := d.n.(*ssa.Phi); ok {
+			lo, hi, _, why := countedRange(np)
+			if why != "" {
+				r.Undecided("shape:columns|"+fk, c.Pos(np.Pos()), why)
+			} else {
+				good := lo.of == nil && lo.k == 0 && hi.of == H && hi.k == 0
+				r.Check(good, "columns|"+fk, c.Pos(np.Pos()), "columns 0 .. len(subject), in either direction", sprintf("%s .. %s", lo, hi))
+			}
+		}
+	}
+	// --- the answer: the test of fits[0][0]
+	answered := false
+	for _, b := range fn.Blocks {
+		iff, ok := lastInstr(b).(*ssa.If)
+		if !ok {
+			continue
+		}
+		cond, neg := iff.Cond, false
+		if u, ok := cond.(*ssa.UnOp); ok && u.Op == token.NOT {
+			cond, neg = u.X, true
+		}
+		if d.val(cond) != "fits[0][0]" {
+			continue
+		}
+		answered = true
+		fitsIdx, failIdx := 0, 1
+		if neg {
+			fitsIdx, failIdx = 1, 0
+		}
+		for _, side := range []struct {
+			idx  int
+			want bool
+			what string
+		}{{fitsIdx, true, "the subject fits the attribute list"}, {failIdx, false, "the subject does not fit"}} {
+			ret := exitAfter(b.Succs[side.idx])
+			if ret == nil {
+				r.Undecided("shape:answer|"+fk, c.Pos(iff.Pos()), "the test of fits[0][0] does not lead straight to an exit")
+				continue
+			}
+			v, isK := constBoolResult(ret)
+			r.Check(isK && v == side.want, sprintf("answer|%v|%s", side.want, fk), c.Pos(ret.Pos()), sprintf("%s: the answer is %v", side.what, side.want), sprintf("%v (constant: %v)", v, isK))
+		}
+	}
+	if !answered {
+		r.Undecided("shape:answer|"+fk, c.FnPos(fn), "no test of fits[0][0] found")
+	}
+	// --- rejections before the table: an attribute name that resolves to nothing, an empty RDN
+	n := 0
+	for _, ret := range returnsOf(fn) {
+		why := ""
+		for _, g := range guardsOf(ret.Block()) {
+			if x, isNil, ok := nilTestOf(g.Cond, g.Truth); ok && isErrorType(x.Type()) && !isNil {
+				why = "an attribute name could not be resolved"
+			}
+			if x, empty, ok := emptyTestOf(g.Cond, g.Truth); ok && empty {
+				if _, isRDN := x.Type().Underlying().(*types.Slice); isRDN && strings.Contains(x.Type().String(), "RelativeDistinguishedName") {
+					why = "the subject holds an empty RDN"
+				}
+			}
+		}
+		if why == "" {
+			continue
+		}
+		n++
+		v, isK := constBoolResult(ret)
+		r.Check(isK && !v, sprintf("reject|%s#%d", fk, n), c.Pos(ret.Pos()), why+": the answer is false", sprintf("%v (constant: %v)", v, isK))
+	}
+	// --- allowOther: each mandatory attribute is searched for; found is false until an attribute equals it
+	for _, b := range fn.Blocks {
+		for _, ins := range b.Instrs {
+			flag, ok := ins.(*ssa.Phi)
+			if !ok {
+				break
+			}
+			if bt, isB := flag.Type().Underlying().(*types.Basic); !isB || bt.Kind() != types.Bool {
+				continue
+			}
+			allConst := len(flag.Edges) >= 2
+			for _, e := range flag.Edges {
+				if k, ok := e.(*ssa.Const); !ok || k.Value == nil {
+					allConst = false
+				}
+			}
+			if !allConst {
+				continue
+			}
+			// which edges come from behind an Equal(...) == true test
+			matched := func(p *ssa.BasicBlock) bool {
+				for _, g := range guardsOf(p) {
+					if call, ok := g.Cond.(*ssa.Call); ok && g.Truth && strings.HasSuffix(calleeFullName(call), ".Equal") {
+						return true
+					}
+				}
+				return false
+			}
+			anyMatch := false
+			for i := range flag.Edges {
+				if matched(b.Preds[i]) {
+					anyMatch = true
+				}
+			}
+			if !anyMatch {
+				continue
+			}
+			okEdges := true
+			for i, e := range flag.Edges {
+				if constBool(e.(*ssa.Const)) != matched(b.Preds[i]) {
+					okEdges = false
+				}
+			}
+			r.Check(okEdges, "search-flag|"+fk, c.Pos(flag.Pos()), "found is true exactly on the way in from an attribute that equals the wanted one", sprintf("%v", okEdges))
+			// its test: not found -> false
+			for _, ref := range *flag.Referrers() {
+				var iff *ssa.If
+				neg := false
+				switch u := ref.(type) {
+				case *ssa.If:
+					iff = u
+				case *ssa.UnOp:
+					if u.Op == token.NOT {
+						for _, r2 := range *u.Referrers() {
+							if i2, ok := r2.(*ssa.If); ok {
+								iff, neg = i2, true
+							}
+						}
+					}
+				}
+				if iff == nil {
+					continue
+				}
+				missIdx := 1
+				if neg {
+					missIdx = 0
+				}
+				ret := exitAfter(iff.Block().Succs[missIdx])
+				if ret == nil {
+					r.Undecided("shape:missing-mandatory|"+fk, c.Pos(iff.Pos()), "a mandatory attribute that is not found does not lead straight to an exit")
+					continue
+				}
+				v, isK := constBoolResult(ret)
+				r.Check(isK && !v, "missing-mandatory|"+fk, c.Pos(ret.Pos()), "a mandatory attribute that is missing: the answer is false", sprintf("%v (constant: %v)", v, isK))
+				// and when all were found: the exit of the loop over the attributes answers true
+				for _, lb := range fn.Blocks {
+					if !lb.Dominates(iff.Block()) || lb == iff.Block() {
+						continue
+					}
+					body := naturalLoops(fn)[lb]
+					if body == nil || !body[iff.Block()] {
+						continue
+					}
+					// lb heads a loop around the test: its exit edge
+					for _, sc := range lb.Succs {
+						if body[sc] {
+							continue
+						}
+						if ret := exitAfter(sc); ret != nil {
+							v, isK := constBoolResult(ret)
+							r.Check(isK && v, "all-mandatory-found|"+fk, c.Pos(ret.Pos()), "every mandatory attribute was found (any order, others allowed): the answer is true", sprintf("%v (constant: %v)", v, isK))
+						}
+					}
+				}
+			}
+		}
+	}
 }
